@@ -56,3 +56,181 @@ Print Assumptions C17_channel_absent.
 Example C17_nonvacuous : forall O,
   JL.gen.ConvGen.exportToBinary O VNil = Panic /\ JL.gen.ConvGen.importFromBinary O VNil VNil = Panic.
 Proof. intros O. split; reflexivity. Qed.
+
+(* ================= the template level =================
+   The builders (With / WithRow), CreateRowEmpty, CreateRow, importer.GetRow / ReadOne on one line,
+   row.MarshalJSON / value.MarshalJSON / json.Marshal, exporter.Export and one line through
+   importer -> exporter (JL.model.Template, with the text layer of JL.std.GoJson plugged in:
+   JL.model.TemplateJson). These models return [Panic] where the Go code would: a listed key missing
+   from the map in the loops of MarshalJSON / CreateRow(Row) / Raw / CloneRow, the b.([]byte) and
+   str.(string) assertions of the binary conversions, a panicking cast. The premises are [wf_crow] /
+   [wf_rv] only; nothing is asked of the oracles, of the encoders, of the line (any list of integers). *)
+From JL.std Require Import GoJson GoJsonMarshal.
+From JL.model Require Import Template TemplateJson TemplateRun.
+From JL.proofs Require Import MarshalTyping TemplateSafe.
+
+(* templates built by the builders, from any names, formats, raw types, at any nesting, are well formed *)
+Theorem C17_with_col_wf : forall name f typ t, wf_crow t -> wf_crow (with_col name f typ t).
+Proof. exact with_col_wf. Qed.
+Print Assumptions C17_with_col_wf.
+
+Theorem C17_with_row_no_panic : forall (O : oracles) n name sub t, wf_crow sub -> wf_crow t ->
+  np (with_row O n name sub t) /\ forall t', with_row O n name sub t = Ok t' -> wf_crow t'.
+Proof. exact with_row_safe. Qed.
+Print Assumptions C17_with_row_no_panic.
+
+Theorem C17_build_template_no_panic : forall (O : oracles) n cols,
+  np (build_template O n cols new_template)
+  /\ forall t, build_template O n cols new_template = Ok t -> wf_crow t.
+Proof. exact (fun O n cols => build_template_safe O n cols new_template wf_new_row). Qed.
+Print Assumptions C17_build_template_no_panic.
+
+(* importer.GetRow / ReadOne on one line: any line *)
+Theorem C17_get_row_no_panic : forall (O : oracles) n ti (line : str), wf_crow ti ->
+  np (get_row O parse_top_rv n ti line)
+  /\ forall r, get_row O parse_top_rv n ti line = Ok r -> wf_crow r.
+Proof. exact jl_get_row_safe. Qed.
+Print Assumptions C17_get_row_no_panic.
+
+(* CreateRow(v): a slice, a map, a Row, a JSON text held in a string or a []byte, anything else *)
+Theorem C17_create_row_no_panic : forall (O : oracles) n t v, wf_crow t -> wf_rv v ->
+  np (create_row O parse_top_rv n t v)
+  /\ forall r, create_row O parse_top_rv n t v = Ok r -> wf_crow r.
+Proof. exact jl_create_row_safe. Qed.
+Print Assumptions C17_create_row_no_panic.
+
+(* json.Marshal of a raw value, value.MarshalJSON, row.MarshalJSON: any fuel, any oracles, any
+   string / float / other-type encoders *)
+Theorem C17_marshal_no_panic :
+  forall (O : oracles) (enc_string : str -> str) (jfloat : bool -> Z -> option str) (jother : Z -> option str) n,
+  (forall v, wf_rv v -> np (marshal_rv O enc_string jfloat jother n v))
+  /\ (forall c, wf_cell c -> np (marshal_cell O enc_string jfloat jother n c))
+  /\ (forall r, wf_crow r -> np (marshal_row O enc_string jfloat jother n r)).
+Proof. exact marshal_np. Qed.
+Print Assumptions C17_marshal_no_panic.
+
+(* exporter.Export *)
+Theorem C17_export_no_panic :
+  forall (O : oracles) (jfloat : bool -> Z -> option str) (jother : Z -> option str) n to input,
+  wf_crow to -> wf_rv input ->
+  np (export_bytes O encode_string parse_top_rv jfloat jother n to input).
+Proof. exact jl_export_bytes_np. Qed.
+Print Assumptions C17_export_no_panic.
+
+(* one line through importer -> exporter: Ok, Err or Fuel, never Panic *)
+Theorem C17_pipeline_no_panic :
+  forall (O : oracles) (jfloat : bool -> Z -> option str) (jother : Z -> option str) n ti to (line : str),
+  wf_crow ti -> wf_crow to ->
+  np (pipeline O encode_string parse_top_rv jfloat jother n ti to line).
+Proof. exact jl_pipeline_np. Qed.
+Print Assumptions C17_pipeline_no_panic.
+
+(* closed form: all templates the builders make, all lines, all fuels *)
+Theorem C17_built_pipeline_no_panic :
+  forall (O : oracles) (jfloat : bool -> Z -> option str) (jother : Z -> option str) fi fo ci co ti to n (line : str),
+  build_template O fi ci new_template = Ok ti -> build_template O fo co new_template = Ok to ->
+  np (pipeline O encode_string parse_top_rv jfloat jother n ti to line).
+Proof. exact built_pipeline_np. Qed.
+Print Assumptions C17_built_pipeline_no_panic.
+
+(* ... and not Fuel either, hence Ok or Err, once the fuel exceeds the measure of both templates
+   ([crow_md]; at most 2 * D + 3 for descriptors nested D deep) and 4 * d + 3 for a line whose members
+   are nested at most d deep ([jdepth]: 0 for scalars; an object costs four units: the interface,
+   the Row, its cell, the value held) *)
+Theorem C17_pipeline_total :
+  forall (O : oracles) (jfloat : bool -> Z -> option str) (jother : Z -> option str) n ti to (line : str) d,
+  wf_crow ti -> wf_crow to ->
+  (crow_md ti <= n)%nat -> (crow_md to <= n)%nat ->
+  Forall (fun kv => jdepth (snd kv) <= d) (fst (parse_top line)) -> 4 * d + 3 <= Z.of_nat n ->
+  (exists out, pipeline O encode_string parse_top_rv jfloat jother n ti to line = Ok out)
+  \/ (exists e, pipeline O encode_string parse_top_rv jfloat jother n ti to line = Err e).
+Proof. exact jl_pipeline_total. Qed.
+Print Assumptions C17_pipeline_total.
+
+Theorem C17_built_pipeline_total :
+  forall (O : oracles) (jfloat : bool -> Z -> option str) (jother : Z -> option str) fi fo ci co ti to n (line : str) D d,
+  build_template O fi ci new_template = Ok ti -> build_template O fo co new_template = Ok to ->
+  Forall (fun x => (td_depth x <= D)%nat) ci -> Forall (fun x => (td_depth x <= D)%nat) co ->
+  Forall (fun kv => jdepth (snd kv) <= d) (fst (parse_top line)) ->
+  (2 * D + 3 <= n)%nat -> 4 * d + 3 <= Z.of_nat n ->
+  (exists out, pipeline O encode_string parse_top_rv jfloat jother n ti to line = Ok out)
+  \/ (exists e, pipeline O encode_string parse_top_rv jfloat jother n ti to line = Err e).
+Proof. exact built_pipeline_total. Qed.
+Print Assumptions C17_built_pipeline_total.
+
+(* an instance: a binary column b, a date-time column t, a sub-row column r with an auto column x.
+   The hostile line {"b":{"x":[1,{"y":null}]},"t":[[[]]],"r":"zz","b":12,"r":{"x":{"x":{}}},"\u0000":{},
+   "t":"2020-13-45T99:99:99Z"  (objects and arrays where scalars are declared, repeated keys, an escaped
+   NUL as a key, an impossible date, no closing brace) is refused; the line
+   {"b":"AQI=","t":"2020-01-02T03:04:05Z","r":{"x":[1,{"y":null}]},"u":[{"k":{}}]} is written with fuel 48
+   and runs out of fuel — without panicking — with fuel 3 *)
+Definition c17_cols : list tdesc :=
+  [TCol [98] FBinary VNil; TCol [116] FDateTime VNil; TSub [114] [TCol [120] FAuto VNil]].
+Definition c17_tpl : template :=
+  Eval vm_compute in match build_template ex_oracles FUEL c17_cols new_template with Ok t => t | _ => new_template end.
+Definition c17_hostile : str :=
+  [123; 34; 98; 34; 58; 123; 34; 120; 34; 58; 91; 49; 44; 123; 34; 121; 34; 58; 110; 117; 108; 108; 125; 93; 125; 44;
+   34; 116; 34; 58; 91; 91; 91; 93; 93; 93; 44; 34; 114; 34; 58; 34; 122; 122; 34; 44; 34; 98; 34; 58; 49; 50; 44; 34;
+   114; 34; 58; 123; 34; 120; 34; 58; 123; 34; 120; 34; 58; 123; 125; 125; 125; 44; 34; 92; 117; 48; 48; 48; 48; 34;
+   58; 123; 125; 44; 34; 116; 34; 58; 34; 50; 48; 50; 48; 45; 49; 51; 45; 52; 53; 84; 57; 57; 58; 57; 57; 58; 57; 57;
+   90; 34].
+Definition c17_nested : str :=
+  [123; 34; 98; 34; 58; 34; 65; 81; 73; 61; 34; 44; 34; 116; 34; 58; 34; 50; 48; 50; 48; 45; 48; 49; 45; 48; 50; 84;
+   48; 51; 58; 48; 52; 58; 48; 53; 90; 34; 44; 34; 114; 34; 58; 123; 34; 120; 34; 58; 91; 49; 44; 123; 34; 121; 34; 58;
+   110; 117; 108; 108; 125; 93; 125; 44; 34; 117; 34; 58; 91; 123; 34; 107; 34; 58; 123; 125; 125; 93; 125].
+
+Example C17_pipeline_example :
+  build_template ex_oracles FUEL c17_cols new_template = Ok c17_tpl
+  /\ wf_crow c17_tpl /\ crow_md c17_tpl = 5%nat
+  /\ jl_pipeline ex_oracles ex_jfloat ex_jother FUEL c17_tpl c17_tpl c17_hostile = Err ErrUnsupportedImportType
+  /\ (exists out, jl_pipeline ex_oracles ex_jfloat ex_jother FUEL c17_tpl c17_tpl c17_nested = Ok out)
+  /\ jl_pipeline ex_oracles ex_jfloat ex_jother 3 c17_tpl c17_tpl c17_nested = Fuel
+  /\ line_depth_leb 3 c17_nested = true.
+Proof.
+  assert (E : build_template ex_oracles FUEL c17_cols new_template = Ok c17_tpl) by (vm_compute; reflexivity).
+  split; [exact E|]. split; [exact (proj2 (C17_build_template_no_panic ex_oracles FUEL c17_cols) c17_tpl E)|].
+  split; [vm_compute; reflexivity|]. split; [vm_compute; reflexivity|].
+  split; [eexists; vm_compute; reflexivity|]. split; vm_compute; reflexivity.
+Qed.
+
+(* the premises of the totality theorem hold of this instance *)
+Example C17_total_example :
+  (exists out, pipeline ex_oracles encode_string parse_top_rv ex_jfloat ex_jother FUEL c17_tpl c17_tpl c17_nested = Ok out)
+  \/ (exists e, pipeline ex_oracles encode_string parse_top_rv ex_jfloat ex_jother FUEL c17_tpl c17_tpl c17_nested = Err e).
+Proof.
+  destruct C17_pipeline_example as (E & _ & _ & _ & _ & _ & Hd).
+  apply (C17_built_pipeline_total ex_oracles ex_jfloat ex_jother FUEL FUEL c17_cols c17_cols c17_tpl c17_tpl FUEL
+           c17_nested 1%nat 3 E E).
+  - repeat constructor.
+  - repeat constructor.
+  - apply line_depth_leb_ok, Hd.
+  - vm_compute. repeat constructor.
+  - vm_compute. discriminate.
+Qed.
+
+(* the command: the two templates cmd/jl builds from any row.yml column list and any inline
+   template text (JL.model.Jl.create_template) are well formed, and no line makes the pipeline
+   panic under them *)
+From JL.model Require Import Jl.
+Theorem C17_jl_templates_no_panic :
+  forall (O : oracles) (jfloat : bool -> Z -> option str) (jother : Z -> option str) cols (inline : str),
+  np (create_template O cols inline)
+  /\ forall ti to, create_template O cols inline = Ok (ti, to) ->
+       wf_crow ti /\ wf_crow to
+       /\ forall n (line : str), np (pipeline O encode_string parse_top_rv jfloat jother n ti to line).
+Proof.
+  exact (fun O jfloat jother cols inline =>
+           conj (proj1 (create_template_safe O cols inline))
+                (fun ti to H => conj (proj1 (proj2 (create_template_safe O cols inline) (ti, to) H))
+                                  (conj (proj2 (proj2 (create_template_safe O cols inline) (ti, to) H))
+                                        (fun n line => jl_command_np O jfloat jother cols inline ti to n line H)))).
+Qed.
+Print Assumptions C17_jl_templates_no_panic.
+
+(* the premise matters: on a row that lists a key its map does not hold, MarshalJSON, CreateRow and
+   the exporter do reach the nil dereference *)
+Example C17_template_nonvacuous : forall O enc jf jo,
+  marshal_row O enc jf jo 5 (MkRow [] [[97]]) = Panic
+  /\ create_row O parse_top_rv 5 new_template (RV (CRow (MkRow [] [[97]]))) = Panic
+  /\ export_bytes O enc parse_top_rv jf jo 5 new_template (RV (CRow (MkRow [] [[97]]))) = Panic.
+Proof. intros O enc jf jo. repeat split; reflexivity. Qed.
